@@ -136,7 +136,9 @@ class Gen:
         return {"k": "int", "v": self.pick([0, 1, 2, 3, -1, -2, 5, 10, 100])}
 
     def floatlit(self) -> dict:
-        return {"k": "float", "v": self.pick(["0.0", "1.5", "-2.25", "3.0", "0.1", "10.75"])}
+        # (the second half: values whose Python repr uses an exponent or more digits than a short format keeps)
+        return {"k": "float", "v": self.pick(["0.0", "1.5", "-2.25", "3.0", "0.1", "10.75", "0.0000001", "0.00001234", "-0.00005",
+                                              "123456789012345678.0", "100000000000000000000.0", "0.1234567", "2.00000049", "1.", "007.50"])}
 
     def path(self, depth: int = 2) -> dict:
         segs: list = []
